@@ -82,8 +82,59 @@ def check_rmul(run, f, rule='R12.rmul', field='g'):
     return tab
 
 
+def _repr_tables_exec(f):
+    """The printer executed on one-qubit operators: prefix = printed text without its last character, letter = last character."""
+    from .. import mini
+
+    def run_once(p, x, z):
+        def attr(n, env, rec):
+            t = norm(n)
+            if t == 'self.N':
+                return 1
+            if t == 'self.p':
+                return p
+            if t == 'self.g':
+                return (x, z)
+            raise Undecidable('attribute ' + t)
+
+        def sub(n, env, rec):
+            b, k = rec(n.value), rec(n.slice)
+            try:
+                return b[k]
+            except Exception as e:
+                raise Undecidable('subscript %s: %s' % (norm(n), e))
+
+        def call(n, env, rec):
+            fn = n.func
+            if isinstance(fn, ast.Name) and fn.id in ('int', 'str') and len(n.args) == 1:
+                return {'int': int, 'str': str}[fn.id](rec(n.args[0]))
+            if isinstance(fn, ast.Attribute) and fn.attr in ('item', 'long', 'int', 'tolist') and not n.args:
+                return rec(fn.value)
+            if isinstance(fn, ast.Attribute) and fn.attr == 'join' and len(n.args) == 1:
+                b = rec(fn.value)
+                if isinstance(b, str):
+                    return b.join(rec(n.args[0]))
+            raise Undecidable('call ' + norm(fn))
+        res = []
+        mini.execute(f.node, {}, sub=sub, call=call, attr=attr, result=res)
+        if len(res) != 1 or not isinstance(res[0], str) or len(res[0]) < 1:
+            raise Undecidable('printed text not computed')
+        return res[0]
+    pref, letters = {}, {}
+    for p in range(4):
+        pref[p] = run_once(p, 0, 0)[:-1]
+    for x in (0, 1):
+        for z in (0, 1):
+            letters[(x, z)] = run_once(0, x, z)[-1]
+    return pref, letters
+
+
 def repr_tables(f):
     """(prefix table {p: str}, letter table {(x,z): str}) of a __repr__ that builds `txt`."""
+    try:
+        return _repr_tables_exec(f)
+    except (Undecidable, TypeError, IndexError, KeyError):
+        pass
     pref = {}
     from ..names import return_names
     rn = return_names(f)
